@@ -349,7 +349,8 @@ impl Protocol for V4 {
             // currently we can't conditionally set them based on v5 or v4,
             // so we ignore them, as properties can't be there in v4.
             Packet::ConnAck(connack, _) => connack::write(&connack, buffer)?,
-            Packet::Publish(publish, None) => publish::write(&publish, buffer)?,
+            // MQTT 5 properties cannot be expressed in 3.1.1: they are dropped, as for CONNACK
+            Packet::Publish(publish, _) => publish::write(&publish, buffer)?,
             Packet::PubAck(puback, None) => puback::write(&puback, buffer)?,
             Packet::Subscribe(subscribe, None) => subscribe::write(&subscribe, buffer)?,
             Packet::SubAck(suback, None) => suback::write(&suback, buffer)?,
